@@ -643,3 +643,14 @@ Proof.
   - apply list_eqb_eq in E. subst a. rewrite H. reflexivity.
   - cbn [assoc_tok]. destruct (list_eqb k' a); [reflexivity|exact IH].
 Qed.
+
+(* ---------- C19: which dangling pre-authorisation the query reports ---------- *)
+
+(* every receipt number the terminal reports — 0 .. 9999 or anything else — is handed on for reversal; only the FFFF marker means
+   "nothing pending" *)
+Theorem pending_reports_receipt ixa v r : field_of "zvt::packets::PartialReversalAbort" v 135 = Some (VSome (VInt r)) ->
+  fst (h_pending ixa tt ixa v) = Some (if r =? 65535 then ROk [] else ROk [r]).
+Proof. intros H. unfold h_pending. rewrite N.eqb_refl, H. cbn [fst]. destruct (r =? 65535); reflexivity. Qed.
+
+Theorem pending_other_packet_is_unexpected ixa i v : i <> ixa -> fst (h_pending ixa tt i v) = Some (RErr EUnexpectedPacket).
+Proof. intros H. unfold h_pending. destruct (i =? ixa) eqn:E; [lia|reflexivity]. Qed.
